@@ -172,6 +172,15 @@ func (g *Gen) Do(op, args, key string) {
 		fmt.Fprintln(os.Stderr, "bad args for", op, args, err)
 		os.Exit(2)
 	}
+	if !g.noSample && len(args) < 4000 {
+		// reservoir sampling, capacity 1500
+		g.seen++
+		if len(g.sample) < 1500 {
+			g.sample = append(g.sample, [2]string{op, args})
+		} else if j := g.R.Intn(g.seen); j < 1500 {
+			g.sample[j] = [2]string{op, args}
+		}
+	}
 	g.Case(op, args, key, func() string { return ex(v.L) })
 }
 
